@@ -38,8 +38,8 @@ PROPS = {
         'trusted': ['modelled: hash/typeinfo.go (tag grammar, embedding, shadowing, normalize), marshal.go, unmarshal.go on descriptors of Go struct types; reflect, strconv (ParseInt/ParseUint/Format* re-modelled in Codec/Strconv.v) and user (Un)MarshalText code are modelled/abstract',
                     'the descriptor of every struct type is produced by the harness from reflect (structDesc)'],
         'assumptions': ['reflect.Value.CanInterface/CanSet hold for promoted exported fields (true for every generated and shipped shape)'],
-        'explanation': 'Model of the whole codec validated against Marshal/Unmarshal on generated reflect.StructOf types (wild and in-class), hand-written shapes and the shipped structs (string, value and projected error compared). Proved: integer text round trip for all bases/bit sizes; shipped layouts tied and in the class. The class round-trip theorem (C10_full_statement) is stated and validated by computation on every in-class case of the run; its proof is in progress.',
-        'level_text': 'proof (partial): the unbounded class round-trip theorem is stated (C10_full_statement) and tested on every generated in-class case; proved so far are the integer-text round trips and the layout ties; the correspondence ties the full codec model to the implementation',
+        'explanation': 'Model of the whole codec validated against Marshal/Unmarshal on generated reflect.StructOf types (wild and in-class), hand-written shapes and the shipped structs (string, value and projected error compared). Proved (C10_class): for every unambiguous layout of any size and every presentable value, for arbitrary text-(un)marshaler behaviours, Unmarshal(Marshal(v)) agrees with v field by field; plus integer text round trips for all bases/bit sizes; nine shipped layouts shown in the class by computation, all eleven tied to /repo. The class statement is also re-evaluated by the model on every generated (layout, value) of the run.',
+        'level_text': 'proof: the unbounded class round-trip theorem (C10_class) is proved about the codec model for arbitrary layouts in the unambiguous class; layouts outside the class (inherent textual ambiguities, DESIGN.md 5.2; the two Sun MD5 layouts) are covered by the correspondence only; the model is tied to the implementation by the correspondence on generated struct types',
     },
     'C14': {
         'property_files': ['Properties/C14.v'],
